@@ -71,6 +71,38 @@ def statements(depth):
   for s in EXTRA: yield s
 
 
+def wide_inputs():
+  """inputs beyond the nesting / length bounds of the generator, one family per dimension"""
+  out = []
+  for k in (5, 12, 25, 40):
+    out.append('T(%sx%s) :- A(x);' % ('(' * k, ')' * k))
+    out.append('T(%s1%s);' % ('[' * k, ']' * k))
+    out.append('T(%s1%s);' % ('{a: ' * k, '}' * k))
+    out.append('T(x) :- %sA(x)%s;' % ('~(' * k, ')' * k))
+    out.append('T(%sx%s) :- A(x);' % ('F(' * k, ')' * k))
+    out.append('T(y) :- A(x), y == %s0%s;' % ('(if x > 1 then 1 else ' * k, ')' * k))
+    out.append('T(y) :- y == %s1 :- A(x)%s;' % ('Sum{' * min(k, 12), '}' * min(k, 12)))
+    out.append('T(r%s, l%s) :- A(r, l);' % ('.a' * k, '[0]' * k))
+    out.append('T(x) :- %sA(x)%s;' % ('(' * k, ' | B(x))' * k))
+    out.append('T(%s);' % ' + '.join(['x'] * min(k * 5, 125)))
+    out.append('T(%s);' % ' '.join('x %s' % op for op in (['+', '*', '-', '/', '++', '&&', '||', '==', '<', '->', '%', '^'] * k)[:k * 3]) + ' x')
+    out.append('T(%s) :- A(%s);' % (', '.join('x%d' % i for i in range(k * 3)), ', '.join('x%d' % i for i in range(k * 3))))
+    out.append('T(%s) :- A(x);' % ', '.join('a%d: x' % i for i in range(k * 3)))
+    out.append('T(x) :- %s;' % ', '.join('A%d(x)' % i for i in range(k * 3)))
+    out.append('T(x) :- %s;' % ' | '.join('A%d(x)' % i for i in range(k * 3)))
+    out.append('\n'.join('T%d(x) :- A(x), x > %d;' % (i, i) for i in range(k * 8)))
+    out.append('T(%s);' % ('x' * (k * 20)))
+    out.append('T("%s");' % ('ab c;, :- #' * (k * 10)))
+    out.append('T(%s, %s.%s, %se%d);' % ('9' * k, '1' * k, '5' * k, '1', k))
+    out.append('#%s\nT(1); /* %s */ T(2);%s' % (' c' * k * 20, ' d ' * k * 20, '\n' * k))
+  # characters outside ASCII in strings, comments and quoted identifiers; other line conventions
+  out += ['T("caf\u00e9", x) :- A(x);', 'T("\u65e5\u672c", "\U0001F600") :- A(x), x == "\u00df";', '# comment \u00e9\u00e8 \u65e5\nT(x) :- A(x);', '/* \u00e9 */ T(x) :- A(x); # \u00fc\nU(1);',
+          'T(x) :- `t\u00e4ble`(x);', 'T(`\u00e9`: 1);', 'T(x) :- A(x), y == "\u00e9" ++ "z", z in ["\u00e0", "b"];', 'T("a\u00e9b") :- A(x) | B("\u00e9");',
+          'T(x) :-\r\n  A(x),\r\n  B(x);\r\nU(1);\r\n', 'T(x)\t:-\tA(x),\tB(x);', 'T(x) :- A(x);\n\n\n\n   \n\t\nU(x) :- B(x);\n', ' \n T(1)  ;  \n ', 'T(1);\f\vT(2);', 'T(x) :- A(x) ,\u00a0B(x);',
+          'T("\\u00e9");', 'T("tab\there", "nl\\n");', "T('\u00e9');", 'T("""multi\nline \u00e9""");']
+  return out
+
+
 def corruption_bases():
   out = list(EXTRA)
   es = list(exprs(2))
@@ -106,6 +138,8 @@ def plan(ctx):
   files = sorted(glob.glob(os.path.join(ctx.repo, 'integration_tests', '*.l')))
   for ch in explore.shards(files, 8): tasks.append(('files', ch))
   tasks.append(('imports',))
+  nw = len(wide_inputs())
+  for i in range(8): tasks.append(('wide', i, 8))
   return tasks
 
 
@@ -115,6 +149,8 @@ def cluster(text, py, cpp):
   if re.search(r'(?<!\|)\|\s*[:?=]', text): feats.append('pipe-as-field-name-or-aggregation-operator')
   elif re.search(r'[(,:]\s*\|(?!\|)|(?<!\|)\|\s*[,)]', text): feats.append('pipe-as-value')
   elif re.search(r'(order_by|limit)\s*\([^)]*\w+\s*:', text): feats.append('named-argument-in-denotation')
+  elif re.search(r'[\u00a0\u2000-\u200b\u3000]', text): feats.append('non-ascii-whitespace')
+  elif len(re.findall(r' [-+*/] ', text)) > 100: feats.append('operator-chain-over-100')
   if not feats: feats.append('other')
   def oc(o): return o[0] if o[0] != 'crash' else 'crash:' + o[1]
   return 'py=%s/cpp=%s/%s' % (oc(py), oc(cpp), '+'.join(feats))
@@ -150,6 +186,11 @@ def work(task):
       stats['corrupted'] += 1
       outcomes.add(compare(s, stats, viol, kind='corrupt'))
     if task[1] == 3: samples.append(dict(kind='single-token corruptions of', text=base, variants=stats['corrupted']))
+  elif task[0] == 'wide':
+    for i, s_ in enumerate(wide_inputs()):
+      if i % task[2] != task[1]: continue
+      stats['statements'] += 1
+      outcomes.add(compare(s_, stats, viol, kind='wide'))
   elif task[0] == 'imports':
     # the same module names with different contents under different import roots, parsed one after the other in ONE process
     import tempfile, shutil
